@@ -20,6 +20,7 @@ PAINT = 'crates/usvg/src/parser/paint_server.rs'
 MARK = 'crates/usvg/src/parser/marker.rs'
 TREE = 'crates/usvg/src/parser/svgtree/mod.rs'
 PARSE = 'crates/usvg/src/parser/svgtree/parse.rs'
+TEXT = 'crates/usvg/src/parser/svgtree/text.rs'
 
 
 def strip_comments(src):
@@ -248,6 +249,25 @@ def generate(api):
     setg('G_NODES_BEFORE_APPEND', bool(mlim) and mapp is not None and mlim.end() <= mapp and len(re.findall(r"doc\s*\.\s*append\s*\(", eb)) == 1,
          "parse_svg_element tests the node limit before its only append")
 
+    # ---------------------------------------------------------------- depth limit inside `text`
+    tsrc = rd(TEXT)
+    tb = fn_body(tsrc, 'parse_svg_text_element_impl') or ''
+    mlim = re.match(r"\s*if\s+depth\s*>\s*([\d_]+)\s*\{\s*return\s+Err\s*\(\s*Error\s*::\s*NodesLimitReached\s*\)\s*;\s*\}", tb)
+    mmain = re.match(r"\s*if\s+depth\s*>\s*([\d_]+)\s*\{", pb)
+    same = bool(mlim) and bool(mmain) and mlim.group(1).replace('_', '') == mmain.group(1).replace('_', '')
+    setg('G_TEXT_DEPTH', same, "parse_svg_text_element_impl tests the same depth limit as parse_xml_node before doing anything else")
+    t_entry = re.search(r"parse_svg_text_element\s*\(\s*node\s*,\s*node_id\s*,\s*style_sheet\s*,\s*depth\s*,\s*doc\s*\)", pb)
+    t_first = re.search(r"parse_svg_text_element_impl\s*\(\s*parent\s*,\s*parent_id\s*,\s*style_sheet\s*,\s*space\s*,\s*depth\s*\+\s*(\d+)\s*,\s*doc\s*\)",
+                        fn_body(tsrc, 'parse_svg_text_element') or '')
+    t_rec = re.findall(r"parse_svg_text_element_impl\s*\(\s*node\s*,\s*node_id\s*,\s*style_sheet\s*,\s*space\s*,\s*depth\s*\+\s*(\d+)\s*,\s*doc\s*\)", tb)
+    n_rec_calls = len(re.findall(r"parse_svg_text_element_impl\s*\(", tb))
+    step_text = None
+    if t_entry and t_first and len(t_rec) == 1 and n_rec_calls == 1 and t_first.group(1) == t_rec[0]:
+        step_text = int(t_rec[0])
+    if step_text is None:
+        miss.append("depth increment of parse_svg_text_element_impl not recognised")
+        step_text = 0
+
     # ---------------------------------------------------------------- pre-pass
     pbody = fn_body(psrc, 'parse') or ''
     steps = []
@@ -306,6 +326,8 @@ def generate(api):
     out.append("\n(* depth + n of the recursive parse_xml_node calls: children, target of a `use` *)")
     out.append("Definition KID_DEPTH_STEP : Z := (%d)%%Z." % step_kid)
     out.append("Definition USE_DEPTH_STEP : Z := (%d)%%Z." % step_use)
+    out.append("(* ... and of parse_svg_text_element_impl below a `text` element *)")
+    out.append("Definition TEXT_DEPTH_STEP : Z := (%d)%%Z." % step_text)
     out.append("\n(* the fix_recursive_* calls of svgtree::parse(), in order *)")
     out.append("Definition PREPASS : list pstep := [%s].\n" % "; ".join(steps))
     api.write_gen('LinkGuards.v', "\n".join(out))
